@@ -7,6 +7,8 @@ and the thread engine B (blocking = park in the scheduler), selected by `env.sch
 import errno
 import fcntl as real_fcntl
 import os as real_os
+import threading as real_threading
+import time as real_time
 import types
 
 
@@ -61,6 +63,11 @@ class Env:
     def os_close(self, fd):
         if self.sched:
             self.sched.point('os.close')
+        if fd not in self.open_fds:
+            # not (or no longer) a descriptor of the code under test: EBADF, and the harness's own
+            # descriptors stay safe. A number that was re-used by a later open IS in the table, so a
+            # stale second close really closes the new owner's descriptor, as in a real process.
+            raise OSError(errno.EBADF, 'Bad file descriptor')
         # Linux semantics: the descriptor is gone even when close() reports an error
         real_os.close(fd)
         self.open_fds.pop(fd, None)
@@ -97,8 +104,9 @@ class Env:
         env = self
         osns = _Proxy(real_os, open=env.os_open, close=env.os_close)
         fcntlns = _Proxy(real_fcntl, flock=env.flock)
-        timens = types.SimpleNamespace(time=env.time, sleep=env.sleep)
-        threadns = types.SimpleNamespace(Lock=lambda: VLock(env), RLock=lambda: VRLock(env))
+        # everything else of the two modules passes through (get_ident, current_thread, strftime ...)
+        timens = _Proxy(real_time, time=env.time, monotonic=env.time, perf_counter=env.time, sleep=env.sleep)
+        threadns = _Proxy(real_threading, Lock=lambda: VLock(env), RLock=lambda: VRLock(env))
         return {'os': osns, 'fcntl': fcntlns, 'time': timens, 'threading': threadns}
 
     def install(self, flmod):
